@@ -749,10 +749,15 @@ impl StreamsState {
                 let Some(stream) = self.send.get_mut(&id).and_then(|s| s.as_mut()) else {
                     continue;
                 };
-                if stream.pending.is_fully_acked() && !stream.fin_pending {
+                // A FIN that went out with (or without any) data is as lost as the data is
+                let fin_sent = matches!(stream.state, SendState::DataSent { finish_acked: false });
+                if stream.pending.is_fully_acked() && !stream.fin_pending && !fin_sent {
                     // Stream data can't be acked in 0-RTT, so we must not have sent anything on
                     // this stream
                     continue;
+                }
+                if fin_sent {
+                    stream.fin_pending = true;
                 }
                 if !stream.is_pending() {
                     self.pending.push_pending(id, stream.priority);
